@@ -38,21 +38,29 @@ def strip_vers_wrap(canon):
     return rm.RS.join(parts)
 
 
-def through(text, wkw, rkw):
+def written(text, wkw, rkw):
     import lasio
     las = lasio.read(text, **rkw)
     buf = io.StringIO()
     las.write(buf, **wkw)
-    return rm.show_las(lasio.read(buf.getvalue(), **rkw))
+    return buf.getvalue()
 
 
 def oracle(text, c1, c2, rkw):
+    import lasio
     try:
-        a = through(text, c1, rkw)
-        b = through(text, c2, rkw)
+        t1 = written(text, c1, rkw)
+        t2 = written(text, c2, rkw)
     except Exception as e:
         return None, "not accepted (%s)" % type(e).__name__
-    a, b = strip_vers_wrap(a), strip_vers_wrap(b)
+    # lasio's own output must be readable, whatever the configuration
+    outs = []
+    for cfg, t in ((c1, t1), (c2, t2)):
+        try:
+            outs.append(rm.show_las(lasio.read(t, **rkw)))
+        except Exception as e:
+            return "the file written with %r cannot be read back: %s: %s" % (cfg, type(e).__name__, str(e)[-100:]), "ok"
+    a, b = strip_vers_wrap(outs[0]), strip_vers_wrap(outs[1])
     if a != b:
         j = next((p for p in range(min(len(a), len(b))) if a[p] != b[p]), 0)
         return "contents differ near %r vs %r" % (a[max(0, j - 70):j + 70], b[max(0, j - 70):j + 70]), "ok"
